@@ -657,6 +657,8 @@ class Rope:
         if cv is not None:
             return cv.hex() if sep is None else cv.hex(sep)
         if sep is not None:
+            if core.FORMAT_OK[0]:
+                return "<sym>"          # diagnostics only (opt-in per proof)
             raise Undecided("hex(sep) of symbolic bytes")
         return Rope([_hexseg(s, False) for s in self.segs], text=True)
 
